@@ -214,13 +214,15 @@ Lemma chain_entry_shape ch x nd er :
   exists ps1 ps2 cs1 cs2 ss1 ss2 be,
     preps ch = ps1 ++ ps2 /\ checks ch = cs1 ++ cs2 /\ stats ch = ss1 ++ ss2 /\
     rev (r_log r) = map pcall ps1 ++ map ccall cs1 ++ scalls x be ss1 /\
-    (r_nil r = false -> ps2 = [] /\ ss2 = []).
+    (r_nil r = false -> ps2 = [] /\ ss2 = []) /\
+    (* either the statistic phase was reached (outcome reported), or no statistic slot ran *)
+    (x_rep (r_ctx r) = true \/ (ss1 = [] /\ x_rep (r_ctx r) = x_rep x /\ r_nil r = true)).
 Proof.
   unfold chain_entry.
   destruct (run_preps_shape (preps ch) x []) as (ps1 & ps2 & Hps & Hl1 & _ & Hok1 & _).
   pose proof (run_preps_ctx (preps ch) x []) as Hx.
   destruct (run_preps (preps ch) x []) as [[x1 lg1] pan1]. cbn in Hl1, Hok1, Hx. rewrite app_nil_r in Hl1.
-  destruct Hx as (Hcore & _). injection Hcore as _ _ Hres _ Hb Hf _ _.
+  destruct Hx as (Hcore & _ & _ & Hrep & _). injection Hcore as _ _ Hres _ Hb Hf _ _.
   destruct pan1.
   { exists ps1, ps2, [], (checks ch), [], (stats ch), None. cbn. repeat split; auto; try discriminate.
     rewrite Hl1, !app_nil_r, rev_involutive. reflexivity. }
